@@ -20,7 +20,7 @@ from typing import Any, Dict, List, Optional
 VERIF = os.path.dirname(os.path.dirname(os.path.abspath(__file__)))
 PY = "/venv/bin/python"
 SCRATCH_BASE = "/dev/shm/dsim" if os.path.isdir("/dev/shm") else "/var/tmp/dsim"
-KNOWN = os.path.join(VERIF, "known_findings.jsonl")
+KNOWN = os.environ.get("DSIM_KNOWN") or os.path.join(VERIF, "known_findings.jsonl")
 
 
 def h64(*parts: Any) -> int:
